@@ -44,6 +44,27 @@ structure BurstObserved' (payload : List Byte) (body tail : List Tick) (acq rel 
   /-- the tail is long enough for the 32-tick power history to empty -/
   tail_len : rel + 40 ≤ tail.length
 
+/-- `BurstObserved'` without `open_ok`: tracking, close threshold, equalizer bytes, release.
+    (The open threshold matters only where sync hits are; see `Spec/StreamObserved2.lean`.) -/
+structure BurstTracked (payload : List Byte) (body tail : List Tick) (acq rel : Nat) : Prop where
+  body_len : body.length = 8 * (frameOf payload).length
+  acq_le : acq ≤ 89
+  bits_ok : ∀ j (hj : j < body.length), acq ≤ j → body[j].1.bit = (bitsOf (frameOf payload)).getD j false
+  close_ok : ∀ j (hj : j < body.length), acq ≤ j → body[j].1.closeOk = true
+  eq_ok : ∀ m, m + 3 < (frameOf payload).length → ∀ (hj : 8 * (m + 3) + 7 < body.length),
+    body[8 * (m + 3) + 7].2 = (frameOf payload).getD m 0
+  eq_tail : ∀ m, m < 3 → ∀ (hk : 8 * m + 7 < tail.length),
+    tail[8 * m + 7].2 = (frameOf payload).getD ((frameOf payload).length - 3 + m) 0
+  rel_hold : ∀ k (hk : k < tail.length), k < rel → tail[k].1.closeOk = true
+  /-- release: at tail tick `rel` the close threshold fails (what it does afterwards is immaterial:
+      31 ticks later the carrier is dropped) -/
+  rel_drop : ∀ (hk : rel < tail.length), tail[rel].1.closeOk = false
+  tail_len : rel + 40 ≤ tail.length
+
+theorem BurstObserved'.tracked {pl : List Byte} {body tail : List Tick} {acq rel : Nat}
+    (H : BurstObserved' pl body tail acq rel) : BurstTracked pl body tail acq rel :=
+  ⟨H.body_len, H.acq_le, H.bits_ok, H.close_ok, H.eq_ok, H.eq_tail, H.rel_hold, fun hk => H.rel_drop rel hk (Nat.le_refl _), H.tail_len⟩
+
 theorem BurstObserved.weaken {pl : List Byte} {lead body tail : List Tick} {acq rel : Nat}
     (H : BurstObserved pl lead body tail acq rel) : BurstObserved' pl body tail acq rel :=
   ⟨H.body_len, H.acq_le, H.bits_ok, H.open_ok, H.close_ok, H.eq_ok, H.eq_tail, H.rel_hold,
